@@ -37,11 +37,14 @@ structure SstCfg where
   searchVsOp : CmpOp
   /-- builder and `Search` hash the same projection of the key (`kv.ParseKey`) -/
   bloomSameProjection : Bool
+  /-- `table.loadBlock` verifies the block checksum before the decoded block is published to the
+      block cache (false = the block is cached first and verified afterwards) -/
+  verifyBeforeCache : Bool
   deriving DecidableEq, Repr
 
 def SstCfg.good : SstCfg :=
   { splitOp := .gt, seekFallsThrough := true, tblSeekOp := .gt, blkFwdOp := .ge, blkRevOp := .gt,
-    searchVsOp := .lt, bloomSameProjection := true }
+    searchVsOp := .lt, bloomSameProjection := true, verifyBeforeCache := true }
 
 def SstCfg.Good (c : SstCfg) : Prop := c = SstCfg.good
 instance SstCfg.decGood (c : SstCfg) : Decidable c.Good := by unfold SstCfg.Good; exact inferInstance
@@ -180,6 +183,31 @@ def search (c : SstCfg) (hash : Bytes → Nat) (t : Table) (key : Bytes) : Optio
     match seekFwd c key t.blocks with
     | [] => none
     | e :: _ => if sameKey key e.1 && c.searchVsOp.nat 0 (verOf e.1) then some e.2 else none
+
+/-! ### block loads through the block cache (`table.loadBlock`) -/
+
+inductive LoadRes where
+  | err
+  | ok (b : Block)
+  deriving DecidableEq, Repr
+
+/-- `loadBlock(idx)`.  `disk idx` = what decoding the bytes currently in the file yields for block
+`idx` and whether its checksum matches; `cache` = decoded blocks by index.  A cache hit is returned
+without re-verification. -/
+def loadBlock (c : SstCfg) (disk : Nat → Block × Bool) (cache : List (Nat × Block)) (idx : Nat) :
+    LoadRes × List (Nat × Block) :=
+  match cache.lookup idx with
+  | some b => (.ok b, cache)
+  | none =>
+    if c.verifyBeforeCache then
+      (if (disk idx).2 then (.ok (disk idx).1, (idx, (disk idx).1) :: cache) else (.err, cache))
+    else
+      (if (disk idx).2 then (.ok (disk idx).1, (idx, (disk idx).1) :: cache) else (.err, (idx, (disk idx).1) :: cache))
+
+/-- a sequence of loads; results in order -/
+def loadSeq (c : SstCfg) (disk : Nat → Block × Bool) : List (Nat × Block) → List Nat → List LoadRes
+  | _, [] => []
+  | cache, i :: is => (loadBlock c disk cache i).1 :: loadSeq c disk (loadBlock c disk cache i).2 is
 
 /-- full iteration -/
 def scan (t : Table) (asc : Bool) : List SEntry :=
